@@ -250,6 +250,20 @@ type c14replay struct {
 	Ops   []c14op  `json:"ops"`
 	Clean bool     `json:"clean_shutdown"`
 	Injs  []c14inj `json:"injections"`
+	Tail  string   `json:"torn_tail,omitempty"` // bytes of an unfinished line at the end of the file (crash mid-write)
+}
+
+// c14withTail returns the image with an unterminated fragment appended to the snapshot file.
+func c14withTail(image map[string]string, tail string) map[string]string {
+	if tail == "" {
+		return image
+	}
+	out := map[string]string{}
+	for k, v := range image {
+		out[k] = v
+	}
+	out[c14path] += tail
+	return out
 }
 
 // c14maxSig classifies failures that need a recorded Lamport time of 2^64-1
@@ -343,6 +357,29 @@ func c14injections(ops []c14op, route string, ev, q uint64, hasEv, hasQ bool) []
 	return out
 }
 
+// c14tail is the torn tail of the case being run (recorded in replay artefacts).
+var c14tail string
+
+// c14tornTails: the node died while the buffered writer was handing the OS a chunk that ends inside
+// the next clock line. Every proper prefix of a next "event-clock" / "query-clock" line whose decimal
+// prefixes are smaller than the recorded value (1 followed by the recorded digits).
+func c14tornTails(ev, q uint64, hasEv, hasQ bool) []string {
+	var out []string
+	add := func(key string, rec uint64) {
+		line := fmt.Sprintf("%s: 1%d", key, rec)
+		for i := 1; i < len(line); i++ {
+			out = append(out, line[:i])
+		}
+	}
+	if hasEv && ev >= 1 && ev < 1<<60 {
+		add("event-clock", ev)
+	}
+	if hasQ && q >= 1 && q < 1<<60 {
+		add("query-clock", q)
+	}
+	return out
+}
+
 func c14runCheck(ctx *vc.Ctx) {
 	debug.SetGCPercent(800)
 	runtime.GOMAXPROCS(1) // the controlled scheduler runs one thread at a time
@@ -357,7 +394,8 @@ func c14runCheck(ctx *vc.Ctx) {
 			fmt.Println("replay: first incarnation:", errs)
 			return
 		}
-		out := c14case(ctx, scn, rp.Ops, rp.Clean, image, rp.Injs, true)
+		c14tail = rp.Tail
+		out := c14case(ctx, scn, rp.Ops, rp.Clean, c14withTail(image, rp.Tail), rp.Injs, true)
 		fmt.Printf("replay outcome=%s\n", out)
 		return
 	}
@@ -371,13 +409,19 @@ func c14runCheck(ctx *vc.Ctx) {
 		alpha  []c14op
 		maxLen int
 		fresh  bool
+		torn   bool
 	}
-	scns := []scnT{{fmt.Sprintf("restart/hist<=%d", maxLen), alpha, maxLen, false}}
+	scns := []scnT{{fmt.Sprintf("restart/hist<=%d", maxLen), alpha, maxLen, false, false}}
 	if ctx.Thorough() {
-		scns = append(scns, scnT{"restart/hist<=3/fresh-node-per-message", alpha, 3, true})
+		scns = append(scns, scnT{"restart/hist<=3/fresh-node-per-message", alpha, 3, true, false})
 	}
 	const max64 = ^uint64(0)
-	scns = append(scns, scnT{"restart/hist<=3/ltime-2^64-1", []c14op{{"U", 2}, {"U", max64}, {"Q", 2}, {"Q", max64}, {"P", max64}, {"T", 0}}, 3, false})
+	tornLen := 2
+	if ctx.Thorough() {
+		tornLen = 3
+	}
+	scns = append(scns, scnT{fmt.Sprintf("restart/torn-tail/hist<=%d", tornLen), []c14op{{"U", 2}, {"U", 10}, {"P", 5}, {"Q", 2}, {"Q", 10}, {"T", 0}}, tornLen, false, true})
+	scns = append(scns, scnT{"restart/hist<=3/ltime-2^64-1", []c14op{{"U", 2}, {"U", max64}, {"Q", 2}, {"Q", max64}, {"P", max64}, {"T", 0}}, 3, false, false})
 	idx, mine := 0, 0
 	stop := false
 	only := os.Getenv("VERIF_ONLY")
@@ -393,6 +437,9 @@ func c14runCheck(ctx *vc.Ctx) {
 		}
 		c14hist(sc.alpha, sc.maxLen, func(h []c14op) bool {
 			for _, clean := range []bool{true, false} {
+				if sc.torn && clean {
+					continue
+				}
 				idx++
 				if !ctx.Mine(idx) {
 					continue
@@ -410,6 +457,16 @@ func c14runCheck(ctx *vc.Ctx) {
 					continue
 				}
 				ev, q, hasEv, hasQ := c14parse(image[c14path])
+				if sc.torn {
+					// the same crash, but the file ends in an unfinished line: what the
+					// snapshot "recorded" is what its complete lines say
+					for _, tail := range c14tornTails(ev, q, hasEv, hasQ) {
+						c14tail = tail
+						c14runInjs(ctx, scn, ops, clean, c14withTail(image, tail), c14injections(ops, "gossip", ev, q, hasEv, hasQ), false)
+					}
+					c14tail = ""
+					continue
+				}
 				for _, route := range []string{"gossip", "sync", "join", "gossip-after-empty-join"} {
 					// the routes that carry only user events constrain nothing when
 					// the snapshot recorded no user-event time
@@ -452,7 +509,7 @@ func c14runCheck(ctx *vc.Ctx) {
 			scn.Exhaustive = false
 			scn.StopReason = "time budget"
 		}
-		if ctx.Shard == 0 {
+		if ctx.Shard == 0 && !strings.HasPrefix(sc.name, "restart/torn") {
 			scn.Sample("before: [U(2) T U(10) Q(2)] clean shutdown -> file records event-clock 10, query-clock 2; after restart user(1,2,9,10) and query(1,2) must not be delivered by any route; user(11), user(1010), query(3) may")
 		}
 	}
@@ -514,7 +571,7 @@ func c14runInjs(ctx *vc.Ctx, scn *vc.Scenario, ops []c14op, clean bool, image ma
 func c14case(ctx *vc.Ctx, scn *vc.Scenario, ops []c14op, clean bool, image map[string]string, injs []c14inj, count bool) string {
 	file := image[c14path]
 	ev, q, hasEv, hasQ := c14parse(file)
-	rp := c14replay{Check: "C14", Ops: ops, Clean: clean, Injs: injs}
+	rp := c14replay{Check: "C14", Ops: ops, Clean: clean, Injs: injs, Tail: c14tail}
 	got, minEv, minQ, errs := c14after(image, injs)
 	mode := "crash"
 	if clean {
